@@ -264,6 +264,11 @@ fn mle_cases(seed: u64, n: usize) -> Vec<(f64, u64, &'static str, usize, usize, 
         ("identical", 300, 0, 0),
         ("identical_single", 1, 0, 0),
         ("disjoint", 0, 400, 600),
+        ("disjoint_small", 0, 3, 5),
+        ("disjoint_equal_sizes", 0, 5000, 5000),
+        ("disjoint_very_unequal", 0, 10, 20_000),
+        ("disjoint_singletons", 0, 1, 1),
+        ("one_common", 1, 700, 900),
         ("ordinary", 1000, 1000, 1000),
         ("low_j", 50, 2000, 3000),
         ("high_j", 2000, 30, 20),
@@ -275,8 +280,8 @@ fn mle_cases(seed: u64, n: usize) -> Vec<(f64, u64, &'static str, usize, usize, 
     let mut v = Vec::new();
     for i in 0..n {
         let b = [1.001, 1.1, 1.5, 2.0][i % 4];
-        let m = [64u64, 256, 4096][(i / 4) % 3];
-        let s = &shapes[(i / 12 + rng.random_range(0..shapes.len())) % shapes.len()];
+        let m = [64u64, 256, 4096, 16, 128, 512][(i / 4) % 6];
+        let s = &shapes[(i / 24 + rng.random_range(0..shapes.len())) % shapes.len()];
         v.push((b, m, s.0, s.1, s.2, s.3, rng.random_range(0..2) == 0));
     }
     v
@@ -336,7 +341,7 @@ pub fn child_mle(a: &[String]) -> i32 {
 
 pub fn run(rep: &mut Report) {
     quiet_panics();
-    rep.rule = "counting estimators (jaccard::compute_probminhash_jaccard, jaccard::get_jaccard_index_estimate, SuperMinHash::get_jaccard_index_estimate, superminhasher::{compute_superminhash_jaccard,get_jaccard_index_estimate}, SuperMinHash2::get_jaccard_index_estimate, superminhasher2::{compute_superminhash_jaccard,get_jaccard_index_estimate}): pairs of sketches of element types u64/String/u16/u32/f64/f32 and real sketcher states, lengths 1..5000, planted agreement patterns (none, all, first only, last only, all but first/last, random); oracle = agreements/length (bit-exact f64, nearest f32 for f32 results), both argument orders, identical => 1, unequal lengths => Err or panic (never a number). MLE: get_mle in child processes on sketch pairs from same-parameter sketchers (nested, very unequal, identical, disjoint, ordinary; b in {1.001,1.1,1.5,2}; m in {64,256,4096}; both argument orders): must return Some(j) with j finite in [0,1]; a panic, None, NaN or out-of-range value is a violation. Distinct = cases; non-trivial: length >= 2 or any MLE case".into();
+    rep.rule = "counting estimators (jaccard::compute_probminhash_jaccard, jaccard::get_jaccard_index_estimate, SuperMinHash::get_jaccard_index_estimate, superminhasher::{compute_superminhash_jaccard,get_jaccard_index_estimate}, SuperMinHash2::get_jaccard_index_estimate, superminhasher2::{compute_superminhash_jaccard,get_jaccard_index_estimate}): pairs of sketches of element types u64/String/u16/u32/f64/f32 and real sketcher states, lengths 1..5000, planted agreement patterns (none, all, first only, last only, all but first/last, random); oracle = agreements/length (bit-exact f64, nearest f32 for f32 results), both argument orders, identical => 1, unequal lengths => Err or panic (never a number). MLE: get_mle in child processes on sketch pairs from same-parameter sketchers (19 shapes: nested, very unequal, identical, five disjoint shapes (no equal register at moderate m), one common item, ordinary, empty; b in {1.001,1.1,1.5,2}; m in {16,64,128,256,512,4096}; both argument orders): must return Some(j) with j finite in [0,1]; a panic, None, NaN or out-of-range value is a violation. Distinct = cases; non-trivial: length >= 2 or any MLE case".into();
     // ---- counting estimators
     if rep.want("counting") {
         let n: u64 = rep.tier.pick(12_000, 400_000);
@@ -361,8 +366,8 @@ pub fn run(rep: &mut Report) {
     }
     // ---- MLE in child processes
     if rep.want("mle") {
-        let nchild = rep.tier.pick(8, 32);
-        let per = rep.tier.pick(12, 48);
+        let nchild = rep.tier.pick(16, 32);
+        let per = rep.tier.pick(30, 200);
         let exe = std::env::current_exe().unwrap();
         let seed = subseed(rep.seed, "C14/mle", &[]);
         let children: Vec<_> = (0..nchild)
